@@ -727,12 +727,126 @@ Section OneMessage.
     destruct (open_dgram (Some k) dg) as [ms|] eqn:Eo; [exfalso; eapply Hj; reflexivity|reflexivity].
   Qed.
 
+  (* ================= whole update() calls ================= *)
+  Variables (Ky siy : Z).
+  Lemma bframe_refl c : bframe c c. Proof. constructor; reflexivity. Qed.
+
+  Lemma xtail_closed c now : SQ c -> c_last_send c = c_last_ka c -> now - c_last_send c <= c_send_interval c ->
+    xtail_eff c now c [].
+  Proof.
+    intros HQ Hls Hg. constructor; auto using bframe_refl. left. unfold kmax. repeat split; auto. lia.
+  Qed.
+
+  Lemma raised_filter_ret o : raised o = false ->
+    raised (filter (fun x => match x with ORet _ => false | _ => true end) o) = false.
+  Proof.
+    unfold raised. induction o as [|x l IH]; [reflexivity|]. cbn [existsb filter]. intros H.
+    apply orb_false_iff in H as [H1 H2]. destruct x; cbn [existsb]; rewrite ?IH; auto; discriminate.
+  Qed.
+
+  (* UdpClient.update of the sender: the socket yields nothing, a keep-alive of the peer, or junk *)
+  Lemma client_tick_X c now r c' o :
+    SQ c -> c_status c = CONNECTED -> c_key c = Some k -> c_hello_sent c = 0 -> c_last_send c = c_last_ka c ->
+    (c_last_recv c >? 0) && (now >? c_last_recv c + 5 * TICKS) = false ->
+    match r with
+    | RxNone => True
+    | RxBadHeader _ => False
+    | RxDgram dg _ => ka_dgram k dg \/ forall ms, open_dgram (Some k) dg <> Ok ms
+    end ->
+    client_tick e c now r = (c', o) ->
+    exists c1 dg, xrecv_eff c dg c1
+      /\ ((ka_dgram k dg /\ exists orcs, r = RxDgram dg orcs) \/ (done c1 = true -> done c = true))
+      /\ xtail_eff c1 now c' (flat_map dg_of o).
+  Proof.
+    intros HQ Hst Hk Hh Hls Hnd Hr E. unfold client_tick, client_update in E.
+    rewrite Hnd, Hh in E. cbn [Z.eqb negb andb] in E. rewrite Hst in E. cbn [status_eqb status_code Z.eqb app] in E.
+    match type of E with context [match ?y with (_, _) => _ end] => destruct y as [c1 o1] eqn:E1 end.
+    set (dg0 := {| d_hdr := {| h_to_server := false; h_ctime := 0; h_seq := 0; h_ack := 0; h_type := UNKNOWN;
+                              h_len := 0; h_count := 0; h_ackbits := 0 |}; d_body := Bad |}).
+    assert (A : exists dg, xrecv_eff c dg c1
+                           /\ ((ka_dgram k dg /\ exists orcs, r = RxDgram dg orcs) \/ (done c1 = true -> done c = true))
+                           /\ raised o1 = false /\ no_emit o1).
+    { destruct r as [|er|dg orcs]; [| destruct Hr |].
+      - injection E1 as <- <-. exists dg0. split; [apply xrecv_eff_same; auto with frame|]. split; [right; auto|].
+        split; [reflexivity|apply no_emit_nil].
+      - destruct (recv c now dg orcs) as [c'' o''] eqn:Er. injection E1 as <- <-.
+        destruct (recv_X _ _ _ _ _ _ HQ Hk Hr Er) as (X1 & X2 & X3).
+        exists dg. split; [exact X1|]. split.
+        + destruct Hr as [Hr|Hr]; [left; split; [exact Hr|eexists; reflexivity]|right].
+          rewrite (recv_junk _ _ _ _ Hk Hr) in Er. injection Er as <- _. auto.
+        + split; [apply raised_filter_ret; exact X2|apply no_emit_filter; exact X3]. }
+    destruct A as (dg & X & Hsrc & Ra & Ne). rewrite Ra in E.
+    exists c1, dg. split; [exact X|]. split; [exact Hsrc|].
+    destruct X as [Q1 [S1 S2 S3 S4 S5 S6 S7 S8] K1 St1 H1 _ _ _].
+    assert (Hls1 : c_last_send c1 = c_last_ka c1) by congruence.
+    destruct (now - c_last_send c1 >? c_send_interval c1) eqn:Hg.
+    - destruct (build_packet e c1 now) as [c2 pk] eqn:E2.
+      destruct (check_timeout false c2 now) as [c3 o3] eqn:E3. injection E as <- <-.
+      assert (Hg' : c_send_interval c1 < now - c_last_send c1) by lia.
+      destruct (tick_tail_X false c1 now c2 pk c3 o3 Q1 ltac:(congruence) ltac:(congruence) Hls1 Hg' E2 E3) as [T N3].
+      rewrite !flat_map_app, (dg_no_emit _ Ne), (dg_no_emit _ N3), app_nil_r. cbn [app].
+      destruct pk as [pkt|]; [|exact T].
+      replace (emit c2 pkt) with (emit c3 pkt); [exact T|].
+      apply ClearP.emit_key_only. apply check_timeout_frame in E3 as [[_ T1 _] _]. exact T1.
+    - injection E as <- <-. rewrite (dg_no_emit _ Ne). apply xtail_closed; [exact Q1|exact Hls1|lia].
+  Qed.
+
+  (* ServerClientConnection.update of the sender *)
+  Lemma server_tick_X c now c' o :
+    SQ c -> c_status c = CONNECTED -> c_key c = Some k -> c_last_send c = c_last_ka c ->
+    server_tick e c now = (c', o) -> xtail_eff c now c' (flat_map dg_of o).
+  Proof.
+    intros HQ Hst Hk Hls E. unfold server_tick in E.
+    destruct (now - c_last_send c >? c_send_interval c) eqn:Hg.
+    - destruct (build_packet e c now) as [c1 pk] eqn:E1.
+      destruct (check_timeout true c1 now) as [c2 o2] eqn:E2. injection E as <- <-.
+      destruct (tick_tail_X true c now c1 pk c2 o2 HQ Hst Hk Hls ltac:(lia) E1 E2) as [T N2].
+      rewrite flat_map_app, (dg_no_emit _ N2). cbn [app]. destruct pk; exact T.
+    - injection E as <- <-. apply xtail_closed; [exact HQ|exact Hls|lia].
+  Qed.
+
+  (* packet assembly and the time-out sweep leave incoming_messages and the message window alone *)
+  Lemma build_packet_rx c now c' r : build_packet e c now = (c', r) ->
+    c_incoming c' = c_incoming c /\ c_bf_msg c' = c_bf_msg c.
+  Proof.
+    unfold build_packet. intros E. destruct (_ <? _); [injection E as <- <-; auto|].
+    destruct (build_impl e c now _ _) as [c1 r1] eqn:E1.
+    assert (H1 : c_incoming c1 = c_incoming c /\ c_bf_msg c1 = c_bf_msg c).
+    { unfold build_impl in E1.
+      destruct (match c_pretry_msg c with [] => _ | _ => _ end) as [[prm msgs0] cur0].
+      destruct (out_pass e (c_outgoing c) msgs0 cur0) as [[rem msgs] cu].
+      match type of E1 with (if ?b then _ else _) = _ => destruct b end; injection E1 as <- _;
+        repeat match goal with |- context [match ?x with [] => _ | _ :: _ => _ end] => destruct x end; auto. }
+    destruct r1; injection E as <- <-; exact H1.
+  Qed.
+
+  (* ServerClientConnection.update of the (idle) receiver *)
+  Lemma server_tick_Y y now y' o :
+    ep_ok k Ky siy y -> server_tick e y now = (y', o) ->
+    ep_ok k Ky siy y' /\ c_bf_pkt y' = c_bf_pkt y /\ c_incoming y' = c_incoming y /\ c_bf_msg y' = c_bf_msg y /\
+    Forall (fun dg => ka_dgram k dg /\ ack_of_window (c_bf_pkt y) (d_hdr dg)) (flat_map dg_of o).
+  Proof.
+    intros H E. destruct (server_tick_ep _ _ _ _ _ _ _ _ H E) as (H' & _ & Hb & Em).
+    pose proof (step_window e y (EServerTick now) y' o E) as [_ Hw]. rewrite Hb in Hw.
+    split; [exact H'|]. split; [exact Hb|].
+    assert (Hrx : c_incoming y' = c_incoming y /\ c_bf_msg y' = c_bf_msg y).
+    { unfold server_tick in E. destruct (_ >? _); [|injection E as <- <-; auto].
+      destruct (build_packet e y now) as [c1 pk] eqn:E1. destruct (check_timeout true c1 now) as [c2 o2] eqn:E2.
+      injection E as <- <-. destruct (build_packet_rx _ _ _ _ E1) as [A1 A2].
+      apply check_timeout_frame in E2 as [[_ _ _ _ _ _ _ B2 B1 _] _]. split; congruence. }
+    destruct Hrx as [Hi Hm]. split; [exact Hi|]. split; [exact Hm|].
+    rewrite <- hdr_dg_of in Hw. rewrite Forall_forall in Hw. apply Forall_forall. intros dg Hin.
+    split; [|apply Hw; apply in_map; exact Hin].
+    destruct Em as [(_ & Ed & _)|(_ & _ & _ & dg' & Ed & Kd & _)]; rewrite Ed in Hin; [destruct Hin|].
+    destruct Hin as [<-|[]]. exact Kd.
+  Qed.
+
   (* ================= the pair ================= *)
   (* th: the network is healed from th on; t0: the time of send; M: the sender's keep-alive period
      max(keep-alive interval, send interval); tau: the sender's update() period; N0: the sender's
      datagram number at t0; Ky, siy: the receiver's keep-alive and send intervals; inc0: the
      receiver's incoming_messages at t0 *)
-  Variables (th t0 M tau N0 Ky siy : Z) (inc0 : list (Z * list byte)).
+  Variables (th t0 M tau N0 : Z) (inc0 : list (Z * list byte)).
   Hypothesis HM : 0 <= M.
   Let T0 := Z.max th t0.
 
@@ -1014,113 +1128,4 @@ Section OneMessage.
     - unfold Dlv in *. rewrite Hi. exact A15.
   Qed.
 
-  (* ================= whole update() calls ================= *)
-  Lemma bframe_refl c : bframe c c. Proof. constructor; reflexivity. Qed.
-
-  Lemma xtail_closed c now : SQ c -> c_last_send c = c_last_ka c -> now - c_last_send c <= c_send_interval c ->
-    xtail_eff c now c [].
-  Proof.
-    intros HQ Hls Hg. constructor; auto using bframe_refl. left. unfold kmax. repeat split; auto. lia.
-  Qed.
-
-  Lemma raised_filter_ret o : raised o = false ->
-    raised (filter (fun x => match x with ORet _ => false | _ => true end) o) = false.
-  Proof.
-    unfold raised. induction o as [|x l IH]; [reflexivity|]. cbn [existsb filter]. intros H.
-    apply orb_false_iff in H as [H1 H2]. destruct x; cbn [existsb]; rewrite ?IH; auto; discriminate.
-  Qed.
-
-  (* UdpClient.update of the sender: the socket yields nothing, a keep-alive of the peer, or junk *)
-  Lemma client_tick_X c now r c' o :
-    SQ c -> c_status c = CONNECTED -> c_key c = Some k -> c_hello_sent c = 0 -> c_last_send c = c_last_ka c ->
-    (c_last_recv c >? 0) && (now >? c_last_recv c + 5 * TICKS) = false ->
-    match r with
-    | RxNone => True
-    | RxBadHeader _ => False
-    | RxDgram dg _ => ka_dgram k dg \/ forall ms, open_dgram (Some k) dg <> Ok ms
-    end ->
-    client_tick e c now r = (c', o) ->
-    exists c1 dg, xrecv_eff c dg c1
-      /\ ((exists orcs, r = RxDgram dg orcs) \/ (done c1 = true -> done c = true))
-      /\ xtail_eff c1 now c' (flat_map dg_of o).
-  Proof.
-    intros HQ Hst Hk Hh Hls Hnd Hr E. unfold client_tick, client_update in E.
-    rewrite Hnd, Hh in E. cbn [Z.eqb negb andb] in E. rewrite Hst in E. cbn [status_eqb status_code Z.eqb app] in E.
-    match type of E with context [match ?y with (_, _) => _ end] => destruct y as [c1 o1] eqn:E1 end.
-    set (dg0 := {| d_hdr := {| h_to_server := false; h_ctime := 0; h_seq := 0; h_ack := 0; h_type := UNKNOWN;
-                              h_len := 0; h_count := 0; h_ackbits := 0 |}; d_body := Bad |}).
-    assert (A : exists dg, xrecv_eff c dg c1 /\ ((exists orcs, r = RxDgram dg orcs) \/ (done c1 = true -> done c = true))
-                           /\ raised o1 = false /\ no_emit o1).
-    { destruct r as [|er|dg orcs]; [| destruct Hr |].
-      - injection E1 as <- <-. exists dg0. split; [apply xrecv_eff_same; auto with frame|]. split; [right; auto|].
-        split; [reflexivity|apply no_emit_nil].
-      - destruct (recv c now dg orcs) as [c'' o''] eqn:Er. injection E1 as <- <-.
-        destruct (recv_X _ _ _ _ _ _ HQ Hk Hr Er) as (X1 & X2 & X3).
-        exists dg. split; [exact X1|]. split; [left; eexists; reflexivity|].
-        split; [apply raised_filter_ret; exact X2|apply no_emit_filter; exact X3]. }
-    destruct A as (dg & X & Hsrc & Ra & Ne). rewrite Ra in E.
-    exists c1, dg. split; [exact X|]. split; [exact Hsrc|].
-    destruct X as [Q1 [S1 S2 S3 S4 S5 S6 S7 S8] K1 St1 H1 _ _ _].
-    assert (Hls1 : c_last_send c1 = c_last_ka c1) by congruence.
-    destruct (now - c_last_send c1 >? c_send_interval c1) eqn:Hg.
-    - destruct (build_packet e c1 now) as [c2 pk] eqn:E2.
-      destruct (check_timeout false c2 now) as [c3 o3] eqn:E3. injection E as <- <-.
-      assert (Hg' : c_send_interval c1 < now - c_last_send c1) by lia.
-      destruct (tick_tail_X false c1 now c2 pk c3 o3 Q1 ltac:(congruence) ltac:(congruence) Hls1 Hg' E2 E3) as [T N3].
-      rewrite !flat_map_app, (dg_no_emit _ Ne), (dg_no_emit _ N3), app_nil_r. cbn [app].
-      destruct pk as [pkt|]; [|exact T].
-      replace (emit c2 pkt) with (emit c3 pkt); [exact T|].
-      apply ClearP.emit_key_only. apply check_timeout_frame in E3 as [[_ T1 _] _]. exact T1.
-    - injection E as <- <-. rewrite (dg_no_emit _ Ne). apply xtail_closed; [exact Q1|exact Hls1|lia].
-  Qed.
-
-  (* ServerClientConnection.update of the sender *)
-  Lemma server_tick_X c now c' o :
-    SQ c -> c_status c = CONNECTED -> c_key c = Some k -> c_last_send c = c_last_ka c ->
-    server_tick e c now = (c', o) -> xtail_eff c now c' (flat_map dg_of o).
-  Proof.
-    intros HQ Hst Hk Hls E. unfold server_tick in E.
-    destruct (now - c_last_send c >? c_send_interval c) eqn:Hg.
-    - destruct (build_packet e c now) as [c1 pk] eqn:E1.
-      destruct (check_timeout true c1 now) as [c2 o2] eqn:E2. injection E as <- <-.
-      destruct (tick_tail_X true c now c1 pk c2 o2 HQ Hst Hk Hls ltac:(lia) E1 E2) as [T N2].
-      rewrite flat_map_app, (dg_no_emit _ N2). cbn [app]. destruct pk; exact T.
-    - injection E as <- <-. apply xtail_closed; [exact HQ|exact Hls|lia].
-  Qed.
-
-  (* packet assembly and the time-out sweep leave incoming_messages and the message window alone *)
-  Lemma build_packet_rx c now c' r : build_packet e c now = (c', r) ->
-    c_incoming c' = c_incoming c /\ c_bf_msg c' = c_bf_msg c.
-  Proof.
-    unfold build_packet. intros E. destruct (_ <? _); [injection E as <- <-; auto|].
-    destruct (build_impl e c now _ _) as [c1 r1] eqn:E1.
-    assert (H1 : c_incoming c1 = c_incoming c /\ c_bf_msg c1 = c_bf_msg c).
-    { unfold build_impl in E1.
-      destruct (match c_pretry_msg c with [] => _ | _ => _ end) as [[prm msgs0] cur0].
-      destruct (out_pass e (c_outgoing c) msgs0 cur0) as [[rem msgs] cu].
-      match type of E1 with (if ?b then _ else _) = _ => destruct b end; injection E1 as <- _;
-        repeat match goal with |- context [match ?x with [] => _ | _ :: _ => _ end] => destruct x end; auto. }
-    destruct r1; injection E as <- <-; exact H1.
-  Qed.
-
-  (* ServerClientConnection.update of the (idle) receiver *)
-  Lemma server_tick_Y y now y' o :
-    ep_ok k Ky siy y -> server_tick e y now = (y', o) ->
-    ep_ok k Ky siy y' /\ c_bf_pkt y' = c_bf_pkt y /\ c_incoming y' = c_incoming y /\ c_bf_msg y' = c_bf_msg y /\
-    Forall (fun dg => ka_dgram k dg /\ ack_of_window (c_bf_pkt y) (d_hdr dg)) (flat_map dg_of o).
-  Proof.
-    intros H E. destruct (server_tick_ep _ _ _ _ _ _ _ _ H E) as (H' & _ & Hb & Em).
-    pose proof (step_window e y (EServerTick now) y' o E) as [_ Hw]. rewrite Hb in Hw.
-    split; [exact H'|]. split; [exact Hb|].
-    assert (Hrx : c_incoming y' = c_incoming y /\ c_bf_msg y' = c_bf_msg y).
-    { unfold server_tick in E. destruct (_ >? _); [|injection E as <- <-; auto].
-      destruct (build_packet e y now) as [c1 pk] eqn:E1. destruct (check_timeout true c1 now) as [c2 o2] eqn:E2.
-      injection E as <- <-. destruct (build_packet_rx _ _ _ _ E1) as [A1 A2].
-      apply check_timeout_frame in E2 as [[_ _ _ _ _ _ _ B2 B1 _] _]. split; congruence. }
-    destruct Hrx as [Hi Hm]. split; [exact Hi|]. split; [exact Hm|].
-    rewrite <- hdr_dg_of in Hw. rewrite Forall_forall in Hw. apply Forall_forall. intros dg Hin.
-    split; [|apply Hw; apply in_map; exact Hin].
-    destruct Em as [(_ & Ed & _)|(_ & _ & _ & dg' & Ed & Kd & _)]; rewrite Ed in Hin; [destruct Hin|].
-    destruct Hin as [<-|[]]. exact Kd.
-  Qed.
 End OneMessage.
